@@ -221,3 +221,14 @@ Proof.
   - exact ex_fix_incompatible.
   - exact ex_lp_feasible_2.
 Qed.
+
+(* the same two lists added as subpath constraints (optimize_with_safety_as_subpath_constraints): still feasible *)
+Example ex_safety_as_constraints_feasible : exists a, sat a (encode_kfd (add_cons (exI 2) exSs)).
+Proof.
+  apply (safety_as_constraints_preserves_feasibility (exI 2) exRank 3 exSs ex_wf eq_refl ex_rank ex_rank_le).
+  - intros c e Hc He. cbn in Hc. destruct Hc as [<-|[<-|[<-|[]]]]; cbn in He; unfold elen; cbn [p_len f_base exI exB];
+      (split; [cbn; intuition (subst; auto)|lra]).
+  - cbn. lra.
+  - intros P w Hd Hcc S HS. destruct (In_nth_error _ _ HS) as (j & Hj). exact (ex_fix_safe P w Hd Hcc j S Hj).
+  - exact ex_lp_feasible_2.
+Qed.
